@@ -595,12 +595,21 @@ def main():
     ap.add_argument("--tier", default=os.environ.get("VERIF_TIER", "quick"))
     ap.add_argument("--replay")
     ap.add_argument("--update-baseline", action="store_true")
+    ap.add_argument("--unit", help="development aid: verify one unit and list every failing baseline obligation, whatever property it serves")
     a = ap.parse_args()
     seed = int(os.environ.get("VERIF_SEED", "0") or 0)
     if a.update_baseline:
         update_baseline(); return 0
     if a.replay:
         return replay(a.replay)
+    if a.unit:
+        kf_omit = set(k["obligation"] for k in load_kf() if k.get("status") == "known")
+        r = run_unit(os.path.join(ROOT, "specs", a.unit + ".vs"), "quick", 0, kf_omit, False, None, "_unit")
+        base = load_baseline()
+        bad = sorted(set(f["oid"] for f in r.failed if f["oid"] in base))
+        for o in bad: print("FAILS", o)
+        print(f"{a.unit}: {r.status} {r.reason[:300]} failing baseline obligations: {len(bad)}; skipped spec parts: {r.skipped}")
+        return 1 if bad else (2 if r.status == "undecided" else 0)
     if not a.prop:
         ap.error("property id required")
     return check_property(a.prop, a.tier if a.tier in ("quick", "thorough") else "quick", seed)
